@@ -33,7 +33,15 @@ func TestVerifC20(t *testing.T) {
 	tweaks := []types.Hash256{{1}, {2}}
 
 	n := verifN(150)
-	for id := 0; id < n+1; id++ {
+	// thorough tier: after the generated cases, every sequence of <= enumLen ops over the
+	// alphabet {Put(k in 0..1, rev in 0..2), SetLimit 0..2} (small-scope exhaustive search)
+	enumLen := verifEnvInt("VERIF_C20_ENUM", 0)
+	const alpha = 9
+	enumTotal := 0
+	for l, p := 1, alpha; l <= enumLen; l, p = l+1, p*alpha {
+		enumTotal += p
+	}
+	for id := 0; id < n+1+enumTotal; id++ {
 		if em.Skip(id) {
 			continue
 		}
@@ -202,6 +210,44 @@ func TestVerifC20(t *testing.T) {
 			}
 			setLimit(1)
 			info()
+		} else if id > n {
+			// decode id-n-1 into a sequence over the alphabet
+			e := id - n - 1
+			l, p := 1, alpha
+			for e >= p {
+				e -= p
+				l++
+				p *= alpha
+			}
+			em.Count(fmt.Sprintf("enum:len=%d", l))
+			for i := 0; i < l; i++ {
+				a := e % alpha
+				e /= alpha
+				if a < 6 {
+					k, rev := a/3, uint64(a%3)
+					ent := rhp3.RegistryEntry{RegistryKey: keyOf(k), RegistryValue: rhp3.RegistryValue{Revision: rev, Type: rhp3.EntryTypeArbitrary, Data: []byte{byte(i)}}}
+					ent.Signature = renters[k/2].SignHash(ent.Hash())
+					tie := false
+					old, gerr := reg.Get(ent.RegistryKey)
+					if gerr == nil {
+						tie = rhp3.ValidateRegistryUpdate(rhp3.RegistryEntry{RegistryKey: ent.RegistryKey, RegistryValue: old}, ent, hostID) == nil
+					}
+					ret, err := reg.Put(ent, 100)
+					em.Step(fmt.Sprintf("Put %d %s true %s", k, entryOf(ent.RegistryValue), coqBool(tie)), fmt.Sprintf("OPut %s %s", coqBool(err == nil), vidOf(ret)))
+					if err == nil {
+						if gerr == nil && !tie {
+							em.Monitor("accepted-non-superseding-update", fmt.Sprintf("key %d", k))
+						}
+						shadow[k] = vidOf(ent.RegistryValue)
+					}
+					get(k)
+				} else {
+					setLimit(uint64(a - 6))
+				}
+				info()
+			}
+			get(0)
+			get(1)
 		} else {
 			setLimit(uint64(rng.Intn(4)))
 			steps := 5 + rng.Intn(25)
